@@ -50,7 +50,41 @@ impl Response for f64 {''')]),
 def sh(cmd, cwd=None, timeout=3600):
     return subprocess.run(cmd, cwd=cwd, shell=True, stdout=subprocess.PIPE, stderr=subprocess.STDOUT, text=True, timeout=timeout)
 
+def run_patches(filt):
+    """Benign changes written by sub-agents: /verif/benign/<area>-<n>/patch.diff"""
+    out = os.path.join(VERIF, "benign", "results.json")
+    results = json.load(open(out)) if os.path.exists(out) else {}
+    for key in sorted(os.listdir(os.path.join(VERIF, "benign"))):
+        d = os.path.join(VERIF, "benign", key)
+        if not os.path.isdir(d) or (filt and not any(f in key for f in filt)):
+            continue
+        try:
+            r = sh("git apply %s/patch.diff" % d, cwd=REPO)
+            if r.returncode != 0:
+                print(key, "patch does not apply", r.stdout[-200:]); continue
+            r = sh("cargo test --workspace --no-fail-fast --offline 2>&1 | grep -E 'test result' | head -5", cwd=REPO)
+            entry = {"repo_tests": r.stdout.strip().splitlines(), "checks": {}}
+            for i in range(1, 15):
+                p = "C%02d" % i
+                r = sh("./check %s --tier quick" % p, cwd=VERIF)
+                viol = [l for l in r.stdout.splitlines() if l.startswith("VIOLATION")]
+                entry["checks"][p] = {"exit": r.returncode, "alarm": bool(viol)}
+                if viol or r.returncode != 0:
+                    lines = [l for l in r.stdout.strip().splitlines() if l.strip()]
+                    entry["checks"][p]["report"] = lines[-2][:900] if len(lines) >= 2 else (lines[-1][:300] if lines else "")
+                print("%-12s %s exit=%d %s" % (key, p, r.returncode, "ALARM" if viol else ("silent" if r.returncode == 0 else "INCONCLUSIVE")), flush=True)
+            results[key] = entry
+        finally:
+            sh("git checkout -- .", cwd=REPO)
+        json.dump(results, open(out, "w"), indent=1)
+    print("done")
+
+
 def main():
+    if "--patches" in sys.argv:
+        if sh("git status --porcelain", cwd=REPO).stdout.strip():
+            print("refusing: /repo dirty"); sys.exit(2)
+        return run_patches([a for a in sys.argv[1:] if not a.startswith("--")])
     filt = sys.argv[1:]
     if sh("git status --porcelain", cwd=REPO).stdout.strip():
         print("refusing: /repo dirty"); sys.exit(2)
